@@ -6,38 +6,43 @@ Import ListNotations.
 Section Proofs.
 Variable F1 : nat -> Z -> Z.
 Variable F2 : nat -> Z -> Z -> Z.
+Variable F3 : nat -> Z -> Z -> Z -> Z.
 Variable order : nat -> list (nat * nat).
 
-Notation den := (den F1 F2).
-Notation eval := (eval F1 F2).
-Notation consis := (consis F1 F2).
-Notation deliver := (deliver F1 F2).
-Notation notify := (notify F1 F2 order).
+Notation den := (den F1 F2 F3).
+Notation eval := (eval F1 F2 F3).
+Notation consis := (consis F1 F2 F3).
+Notation deliver := (deliver F1 F2 F3).
+Notation notify := (notify F1 F2 F3 order).
 
 (* ---------- tree level ---------- *)
 Lemma mark_leaves t lid : leaves (fst (mark t lid)) = leaves t.
 Proof.
-  induction t as [z|p i d|f d c k IH|f d c k1 IH1 k2 IH2]; cbn; auto.
+  induction t as [z|p i d|f d c k IH|f d c k1 IH1 k2 IH2|f d c k1 IH1 k2 IH2 k3 IH3]; cbn; auto.
   - destruct (Nat.eqb i lid), d; reflexivity.
   - destruct (mark k lid) as [k' up]; cbn in *. destruct up, d; cbn; auto.
   - destruct (mark k1 lid) as [k1' up1], (mark k2 lid) as [k2' up2]; cbn in *.
     destruct (up1 || up2), d; cbn; congruence.
+  - destruct (mark k1 lid) as [k1' up1], (mark k2 lid) as [k2' up2], (mark k3 lid) as [k3' up3]; cbn in *.
+    destruct (up1 || up2 || up3), d; cbn; congruence.
 Qed.
 
 Lemma eval_clean e t : clean t -> eval e t = (t, val e t).
 Proof.
-  destruct t as [z|p i d|f d c k|f d c k1 k2]; cbn; auto.
+  destruct t as [z|p i d|f d c k|f d c k1 k2|f d c k1 k2 k3]; cbn; auto.
   - intros ->; reflexivity.
+  - intros (-> & _); reflexivity.
   - intros (-> & _); reflexivity.
   - intros (-> & _); reflexivity.
 Qed.
 
 Lemma den_ext e e' t : (forall p lid, In (p, lid) (leaves t) -> e' p = e p) -> den e' t = den e t.
 Proof.
-  induction t as [z|p i d|f d c k IH|f d c k1 IH1 k2 IH2]; cbn; intros H; auto.
+  induction t as [z|p i d|f d c k IH|f d c k1 IH1 k2 IH2|f d c k1 IH1 k2 IH2 k3 IH3]; cbn; intros H; auto.
   - apply (H p i); left; reflexivity.
   - rewrite IH; auto.
   - rewrite IH1, IH2; auto; intros; apply (H p lid); apply in_or_app; auto.
+  - rewrite IH1, IH2, IH3; auto; intros; apply (H p lid); apply in_or_app; auto; right; apply in_or_app; auto.
 Qed.
 
 Lemma nopend_mono P P' q t : (forall x, In x P' -> In x P) -> nopend P q t -> nopend P' q t.
@@ -45,16 +50,17 @@ Proof. unfold nopend; intros H N p lid Hin Hp. apply (N p lid Hin). auto. Qed.
 
 Lemma cons_mono e P P' q t : (forall x, In x P -> In x P') -> consis e P q t -> consis e P' q t.
 Proof.
-  intros HP. induction t as [z|p i d|f d c k IH|f d c k1 IH1 k2 IH2]; cbn; auto.
+  intros HP. induction t as [z|p i d|f d c k IH|f d c k1 IH1 k2 IH2|f d c k1 IH1 k2 IH2 k3 IH3]; cbn; auto.
   - intros (Hk & Hc); split; auto. intros N; apply Hc. eapply nopend_mono; eauto.
   - intros (H1 & H2 & Hc); repeat split; auto. intros N; apply Hc. eapply nopend_mono; eauto.
+  - intros (H1 & H2 & H3 & Hc); repeat split; auto. intros N; apply Hc. eapply nopend_mono; eauto.
 Qed.
 
 (* dropping a pending entry that is not a leaf of this tree (other binding, or lid absent) *)
 Lemma cons_drop e P q q' lid t :
   (q' = q -> ~ In lid (map snd (leaves t))) -> consis e ((q', lid) :: P) q t -> consis e P q t.
 Proof.
-  intros Hn. induction t as [z|p i d|f d c k IH|f d c k1 IH1 k2 IH2]; cbn in *; auto.
+  intros Hn. induction t as [z|p i d|f d c k IH|f d c k1 IH1 k2 IH2|f d c k1 IH1 k2 IH2 k3 IH3]; cbn in *; auto.
   - intros (Hk & Hc); split; auto. intros N; apply Hc.
     intros p i Hin [Heq|Hp]; [|exact (N p i Hin Hp)].
     assert (Hi : lid = i) by congruence; subst i. apply Hn; [congruence|]. apply in_map_iff. exists (p, lid); auto.
@@ -64,6 +70,19 @@ Proof.
     + intros N; apply Hc.
       intros p i Hin [Heq|Hp]; [|exact (N p i Hin Hp)].
       assert (Hi : lid = i) by congruence; subst i. apply Hn; [congruence|]. apply in_map_iff. exists (p, lid); auto.
+  - intros (H1 & H2 & H3 & Hc); repeat split.
+    + apply IH1; auto. intros Hq Hin. apply Hn; auto. rewrite !map_app; apply in_or_app; auto.
+    + apply IH2; auto. intros Hq Hin. apply Hn; auto. rewrite !map_app; apply in_or_app; right; apply in_or_app; auto.
+    + apply IH3; auto. intros Hq Hin. apply Hn; auto. rewrite !map_app; apply in_or_app; right; apply in_or_app; auto.
+    + intros N; apply Hc.
+      intros p i Hin [Heq|Hp]; [|exact (N p i Hin Hp)].
+      assert (Hi : lid = i) by congruence; subst i. apply Hn; [congruence|]. apply in_map_iff. exists (p, lid); auto.
+Qed.
+
+Lemma nopend_sub3 P q f d c k1 k2 k3 :
+  nopend P q (Tern f d c k1 k2 k3) -> nopend P q k1 /\ nopend P q k2 /\ nopend P q k3.
+Proof.
+  unfold nopend; cbn; intros N; repeat split; intros p lid Hin; apply (N p lid); apply in_or_app; auto; right; apply in_or_app; auto.
 Qed.
 
 Lemma nopend_sub P q f d c k1 k2 :
@@ -81,7 +100,7 @@ Lemma mark_eval e P q lid t :
   clean t2 /\ leaves t2 = leaves t /\ consis e P q t2 /\ v = val e t2 /\
   (up = false -> t1 = t /\ ~ In lid (map snd (leaves t))).
 Proof.
-  induction t as [z|p i d|f d c k IH|f d c k1 IH1 k2 IH2]; cbn [mark].
+  induction t as [z|p i d|f d c k IH|f d c k1 IH1 k2 IH2|f d c k1 IH1 k2 IH2 k3 IH3]; cbn [mark].
   - cbn; intros _ _; repeat split; auto.
   - cbn [clean]; intros -> _. destruct (Nat.eqb_spec i lid) as [->|Hne]; cbn.
     + repeat split; auto; congruence.
@@ -115,6 +134,26 @@ Proof.
       * intros N. apply Cc. intros p i Hin [Heq|Hp]; [|exact (N p i Hin Hp)].
         assert (Hi : lid = i) by congruence; subst i. apply in_app_or in Hin as [Hin|Hin]; [apply Hn1|apply Hn2]; apply in_map_iff; exists (p, lid); auto.
       * rewrite map_app. intros Hin; apply in_app_or in Hin as [Hin|Hin]; auto.
+  - cbn [clean PropAbs.consis]; intros (-> & Hk1 & Hk2 & Hk3) (C1 & C2 & C3 & Cc).
+    specialize (IH1 Hk1 C1). specialize (IH2 Hk2 C2). specialize (IH3 Hk3 C3).
+    destruct (mark k1 lid) as [k1' up1], (mark k2 lid) as [k2' up2], (mark k3 lid) as [k3' up3].
+    destruct (eval e k1') as [k1'' v1] eqn:E1, (eval e k2') as [k2'' v2] eqn:E2, (eval e k3') as [k3'' v3] eqn:E3.
+    destruct IH1 as (Cl1 & Lv1 & Cn1 & Vv1 & Hf1), IH2 as (Cl2 & Lv2 & Cn2 & Vv2 & Hf2), IH3 as (Cl3 & Lv3 & Cn3 & Vv3 & Hf3).
+    destruct (up1 || up2 || up3) eqn:Hup.
+    + cbn [eval]. rewrite E1, E2, E3. cbn; repeat split; auto; try congruence.
+      intros N. apply nopend_sub3 in N as (N1 & N2 & N3). f_equal.
+      * rewrite Vv1; eapply val_den; eauto.
+      * rewrite Vv2; eapply val_den; eauto.
+      * rewrite Vv3; eapply val_den; eauto.
+    + apply orb_false_elim in Hup as (Hup & ->). apply orb_false_elim in Hup as (-> & ->).
+      destruct (Hf1 eq_refl) as (-> & Hn1), (Hf2 eq_refl) as (-> & Hn2), (Hf3 eq_refl) as (-> & Hn3).
+      cbn [eval]. cbn; repeat split; auto.
+      * rewrite (eval_clean e k1 Hk1) in E1; inversion E1; subst. exact Cn1.
+      * rewrite (eval_clean e k2 Hk2) in E2; inversion E2; subst. exact Cn2.
+      * rewrite (eval_clean e k3 Hk3) in E3; inversion E3; subst. exact Cn3.
+      * intros N. apply Cc. intros p i Hin [Heq|Hp]; [|exact (N p i Hin Hp)].
+        assert (Hi : lid = i) by congruence; subst i. apply in_app_or in Hin as [Hin|Hin]; [apply Hn1|apply in_app_or in Hin as [Hin|Hin]; [apply Hn2|apply Hn3]]; apply in_map_iff; exists (p, lid); auto.
+      * rewrite !map_app. intros Hin; apply in_app_or in Hin as [Hin|Hin]; auto. apply in_app_or in Hin as [Hin|Hin]; auto.
 Qed.
 
 (* the environment changes at r; every leaf labelled r is (now) pending *)
@@ -122,7 +161,7 @@ Lemma cons_env_change e P q t r v :
   (forall p lid, In (p, lid) (leaves t) -> p = r -> In (q, lid) P) ->
   consis e P q t -> consis (set_env e r v) P q t.
 Proof.
-  induction t as [z|p i d|f d c k IH|f d c k1 IH1 k2 IH2]; cbn [PropAbs.consis leaves]; auto.
+  induction t as [z|p i d|f d c k IH|f d c k1 IH1 k2 IH2|f d c k1 IH1 k2 IH2 k3 IH3]; cbn [PropAbs.consis leaves]; auto.
   - intros HL (Ck & Cc); split; auto. intros N.
     assert (Hd : den (set_env e r v) (Un f d c k) = den e (Un f d c k)).
     { apply den_ext. intros p i Hin. unfold set_env. destruct (Nat.eqb_spec p r) as [->|]; auto.
@@ -133,6 +172,15 @@ Proof.
     + apply IH2; auto. intros; apply (HL p lid); auto. apply in_or_app; auto.
     + intros N.
       assert (Hd : den (set_env e r v) (Bin f d c k1 k2) = den e (Bin f d c k1 k2)).
+      { apply den_ext. intros p i Hin. unfold set_env. destruct (Nat.eqb_spec p r) as [->|]; auto.
+        exfalso. apply (N r i Hin). apply (HL r i Hin eq_refl). }
+      rewrite Hd. apply Cc; exact N.
+  - intros HL (C1 & C2 & C3 & Cc); repeat split.
+    + apply IH1; auto. intros; apply (HL p lid); auto. apply in_or_app; auto.
+    + apply IH2; auto. intros; apply (HL p lid); auto. apply in_or_app; right; apply in_or_app; auto.
+    + apply IH3; auto. intros; apply (HL p lid); auto. apply in_or_app; right; apply in_or_app; auto.
+    + intros N.
+      assert (Hd : den (set_env e r v) (Tern f d c k1 k2 k3) = den e (Tern f d c k1 k2 k3)).
       { apply den_ext. intros p i Hin. unfold set_env. destruct (Nat.eqb_spec p r) as [->|]; auto.
         exfalso. apply (N r i Hin). apply (HL r i Hin eq_refl). }
       rewrite Hd. apply Cc; exact N.
@@ -233,7 +281,7 @@ Section Step.
     rewrite loop_oof in Ho by exact Hd. congruence.
   Qed.
 
-  Lemma body_ok : rec_ok (notify_body F1 F2 order R).
+  Lemma body_ok : rec_ok (notify_body F1 F2 F3 order R).
   Proof.
     split.
     - intros s r H. unfold notify_body. rewrite loop_oof by exact H. exact H.
@@ -253,7 +301,7 @@ Qed.
    registered equals the denotation of its expression, all nodes are clean, all caches are right. *)
 Theorem set_consistent fuel s p v :
   tr s p = None -> oof s = false ->
-  Inv s [] -> oof (PropAbs.set F1 F2 order fuel s p v) = false -> Inv (PropAbs.set F1 F2 order fuel s p v) [].
+  Inv s [] -> oof (PropAbs.set F1 F2 F3 order fuel s p v) = false -> Inv (PropAbs.set F1 F2 F3 order fuel s p v) [].
 Proof.
   intros Hp Ho HI. unfold PropAbs.set. destruct (Z.eqb v (env s p)); [intros _; exact HI|].
   intros Hf. apply (proj2 (notify_ok fuel)); [|exact Hf].
@@ -267,41 +315,42 @@ End Proofs.
 Section Sets.
 Variable F1 : nat -> Z -> Z.
 Variable F2 : nat -> Z -> Z -> Z.
+Variable F3 : nat -> Z -> Z -> Z -> Z.
 Variable order : nat -> list (nat * nat).
 
 Definition sets (fuel : nat) (s : state) (ws : list (nat * Z)) : state :=
-  fold_left (fun s pv => PropAbs.set F1 F2 order fuel s (fst pv) (snd pv)) ws s.
+  fold_left (fun s pv => PropAbs.set F1 F2 F3 order fuel s (fst pv) (snd pv)) ws s.
 
-Lemma set_tr fuel s p v : forall q, tr (PropAbs.set F1 F2 order fuel s p v) q = None <-> tr s q = None.
+Lemma set_tr fuel s p v : forall q, tr (PropAbs.set F1 F2 F3 order fuel s p v) q = None <-> tr s q = None.
 Proof.
   assert (Hdel : forall R, (forall s r q, tr (R s r) q = None <-> tr s q = None) ->
-                 forall l s q, tr (fold_left (deliver F1 F2 R) l s) q = None <-> tr s q = None).
+                 forall l s q, tr (fold_left (deliver F1 F2 F3 R) l s) q = None <-> tr s q = None).
   { intros R HR l. induction l as [|[q0 lid] l IH]; intros s0 q; cbn [fold_left]; [tauto|].
     rewrite IH. unfold deliver. destruct (oof s0); [tauto|].
     destruct (tr s0 q0) as [t|] eqn:Ht; [|tauto].
     destruct (mark t lid) as [t1 up]. destruct up.
-    - destruct (PropAbs.eval F1 F2 (env s0) t1) as [t2 v0].
+    - destruct (PropAbs.eval F1 F2 F3 (env s0) t1) as [t2 v0].
       destruct (Z.eqb v0 (env s0 q0)); cbn [tr]; [|rewrite HR; cbn [tr]];
         unfold PropAbs.set_tr; destruct (Nat.eqb_spec q q0) as [->|]; try tauto; rewrite Ht; split; discriminate.
     - cbn [tr]. unfold PropAbs.set_tr. destruct (Nat.eqb_spec q q0) as [->|]; try tauto. rewrite Ht; split; discriminate. }
-  assert (Hn : forall fuel s r q, tr (PropAbs.notify F1 F2 order fuel s r) q = None <-> tr s q = None).
+  assert (Hn : forall fuel s r q, tr (PropAbs.notify F1 F2 F3 order fuel s r) q = None <-> tr s q = None).
   { induction fuel0 as [|f IH]; intros s0 r q; cbn [PropAbs.notify]; [cbn; tauto|].
     unfold notify_body. apply Hdel. exact IH. }
   intros q. unfold PropAbs.set. destruct (Z.eqb v (env s p)); [tauto|]. rewrite Hn. cbn [tr]. tauto.
 Qed.
 
 Theorem sets_consistent fuel : forall ws s,
-  (forall p v, In (p, v) ws -> tr s p = None) -> oof s = false -> Inv F1 F2 order s [] ->
-  oof (sets fuel s ws) = false -> Inv F1 F2 order (sets fuel s ws) [].
+  (forall p v, In (p, v) ws -> tr s p = None) -> oof s = false -> Inv F1 F2 F3 order s [] ->
+  oof (sets fuel s ws) = false -> Inv F1 F2 F3 order (sets fuel s ws) [].
 Proof.
   induction ws as [|[p v] r IH]; intros s Hin Ho HI Hf; unfold sets in *; cbn [fold_left fst snd] in *; [exact HI|].
-  set (s1 := PropAbs.set F1 F2 order fuel s p v) in *.
+  set (s1 := PropAbs.set F1 F2 F3 order fuel s p v) in *.
   assert (Ho1 : oof s1 = false).
   { destruct (oof s1) eqn:E; [|reflexivity]. exfalso.
-    assert (Hmono : forall l s0, oof s0 = true -> oof (fold_left (fun s pv => PropAbs.set F1 F2 order fuel s (fst pv) (snd pv)) l s0) = true).
+    assert (Hmono : forall l s0, oof s0 = true -> oof (fold_left (fun s pv => PropAbs.set F1 F2 F3 order fuel s (fst pv) (snd pv)) l s0) = true).
     { induction l as [|[p0 v0] l IHl]; intros s0 H0; cbn [fold_left]; [exact H0|]. apply IHl.
       unfold PropAbs.set. cbn [fst snd]. destruct (Z.eqb v0 (env s0 p0)); [exact H0|].
-      apply (proj1 (notify_ok F1 F2 order fuel)). cbn. exact H0. }
+      apply (proj1 (notify_ok F1 F2 F3 order fuel)). cbn. exact H0. }
     rewrite (Hmono r s1 E) in Hf. discriminate. }
   apply IH.
   - intros q u Hq. apply (set_tr fuel s p v). apply (Hin q u). right; exact Hq.
